@@ -94,7 +94,9 @@ pub fn substance_from_formula(
                 match subst.get("molar_mass") {
                     Ok(subst_molar_mass) => {
                         let subst_molar_mass = (&subst_molar_mass * &count).unwrap();
-                        total_molar_mass = (&total_molar_mass + &subst_molar_mass).unwrap();
+                        // Fails if the element's molar mass isn't a molar
+                        // mass, which a broken database can cause.
+                        total_molar_mass = (&total_molar_mass + &subst_molar_mass)?;
                     }
                     Err(_) => return None,
                 }
